@@ -145,8 +145,13 @@ class Executor(object):
             c = self.ctx(st)
             c.call_result = res
             c.loop_idx = list(st.loop_idx)
+            c.asserts = []
             h.fn(c)
             for f in c.extra:
+                st.pc.append(f)
+            # ghost lemma steps: proved here (small context), then available downstream
+            for (label, f) in c.asserts:
+                self.oblige(st, 'lemma-step', label, f, node)
                 st.pc.append(f)
 
     def ghost_written_in(self, body):
@@ -195,6 +200,14 @@ class Executor(object):
         name = '%s/%s/%s/%s' % (self.qualname.split('.')[-2] + '.' + self.qualname.split('.')[-1]
                                 if self.qualname.count('.') else self.qualname,
                                 self.case.name, kind, label)
+        seen_ids = set()
+        uniq = []
+        for a in st.pc:
+            i_ = a.get_id()
+            if i_ not in seen_ids:
+                seen_ids.add(i_)
+                uniq.append(a)
+        st.pc[:] = uniq
         self.obls.append(Obligation(name, kind, list(st.pc), goal,
                                     getattr(node, 'lineno', 0), self.qualname, self.case.name,
                                     st.fp.copy()))
@@ -230,7 +243,7 @@ class Executor(object):
                 st.heap[a][fname] = self.bind_param(st, name + '.' + fname, fspec)
             return V(ObjT(spec.cls), a)
         if isinstance(spec, T):
-            if isinstance(spec, NoneT):
+            if isinstance(spec, (NoneT, AnyT)):
                 return vnone()
             v = fresh(spec, name.replace('.', '_'))
             if isinstance(spec, IntT):
@@ -346,7 +359,7 @@ class Executor(object):
         allowed = set()
         if not exceptional:
             for m in self.case.modifies:
-                allowed.add(m)
+                allowed.add(m[0] if isinstance(m, tuple) else m)
         for w in st.writes:
             if w[0] != 'field':
                 continue
@@ -780,7 +793,10 @@ class Executor(object):
             if not isinstance(obj.ty, ObjT):
                 raise Undecided('attribute store on non-object (line %d)' % tgt.lineno)
             old = st.heap[obj.t].get(tgt.attr)
-            if old is not None and is_ground(old.ty) and old.ty != v.ty:
+            declared = getattr(self.case, 'field_types', {}).get(tgt.attr)
+            if declared is not None and v.ty != declared:
+                v = self.coerce(st, v, declared, tgt, 'field-type-' + tgt.attr)
+            elif old is not None and is_ground(old.ty) and old.ty != v.ty:
                 v = self.coerce(st, v, old.ty, tgt, 'field-type-' + tgt.attr)
             st.heap[obj.t][tgt.attr] = v
             st.writes.add(('field', obj.t, tgt.attr))
@@ -1299,6 +1315,13 @@ class Executor(object):
             return v
         if isinstance(ty, ValT) and isinstance(v.ty, StrConstT):
             return to_val(v)
+        if isinstance(ty, ValT) and isinstance(v.ty, (FloatT, IntT)):
+            # a number stored in a cell
+            from . import spec as S_
+            if isinstance(v.ty, IntT):
+                from .pandas_model import val_of_int
+                return V(VAL, val_of_int(v.t))
+            return V(VAL, S_.val_of_float(v.t))
         if isinstance(ty, FloatT) and isinstance(v.ty, (IntT, BoolT)):
             return self.to_float(st, v, node)
         if isinstance(ty, IntT) and isinstance(v.ty, BoolT):
@@ -1349,8 +1372,14 @@ class Executor(object):
                 raise Undecided('indexing an empty list literal')
             kk = self.need_int(st, k, node, 'list-index-int')
             n = L_len(ty, base.t)
-            idx = z3.If(kk.t < 0, kk.t + n, kk.t) if not z3.is_int_value(z3.simplify(kk.t)) or \
-                z3.simplify(kk.t).as_long() < 0 else kk.t
+            ks = z3.simplify(kk.t)
+            if z3.is_int_value(ks) and ks.as_long() < 0:
+                idx = n + ks.as_long()          # literal negative index: from the end
+            else:
+                # symbolic indices must be non-negative (no wrap-around modelling: an `If` inside
+                # the element term would poison quantifier patterns); a possibly negative index
+                # fails the in-range obligation
+                idx = kk.t
             if check:
                 self.oblige(st, 'safety', 'index-in-range', z3.And(idx >= 0, idx < n), node)
             return V(ty.elem, L_get(ty, base.t, idx))
@@ -1436,15 +1465,21 @@ class Executor(object):
             st.assume(x)
         # frame
         for m in case.modifies:
+            newty = None
+            if isinstance(m, tuple):
+                m, newty = m
             parts = m.split('.')
             obj = bound[parts[0]]
             for fld in parts[1:-1]:
                 obj = st.heap[obj.t][fld]
             fname = parts[-1]
-            old = st.heap[obj.t][fname]
-            if not is_ground(old.ty):
+            old = st.heap[obj.t].get(fname)
+            ty = newty or (old.ty if old is not None else None)
+            if ty is None or not is_ground(ty):
                 raise Undecided('modifies clause names non-ground field %s' % m)
-            st.heap[obj.t][fname] = fresh(old.ty, fname)
+            st.heap[obj.t][fname] = fresh(ty, fname)
+            for f in wf(st.heap[obj.t][fname]):
+                st.assume(f)
             st.writes.add(('field', obj.t, fname))
         # exceptional exits
         conds = case.raises(c)
@@ -1512,9 +1547,15 @@ class Executor(object):
                         cur = st.heap[a.t].get(fname)
                         if cur is None or not (isinstance(cur.ty, StrConstT) and cur.t == fspec.t):
                             return False
+                    if isinstance(fspec, AnyT):
+                        continue
                     if isinstance(fspec, T) and fname in st.heap[a.t]:
                         cur = st.heap[a.t][fname]
                         if not self.type_fits(cur, fspec):
+                            return False
+                    if isinstance(fspec, ObjSpec):
+                        cur = st.heap[a.t].get(fname)
+                        if cur is None or not isinstance(cur.ty, ObjT) or cur.ty.cls != fspec.cls:
                             return False
                 continue
             if isinstance(spec, T):
